@@ -29,7 +29,7 @@ HARNESSES = [
                'scenarios': 'SC0 free||owner, SC3 orphaned: free||adopter, SC5 free||free; thorough: SC6 free onto a non-empty public list||owner, SC1 free||free||owner, SC4 orphaned: free||free||adopter'}),
 ]
 MANIFEST = dict(
-  level_text='Bounded symbolic execution of the real tbbmalloc front-end kernels: size-class functions for every request size; one inductive step of the slab (Block) operations from an arbitrary state satisfying the representation invariant, for every size class; allocateAligned strategy selection for symbolic size/alignment with the inner allocator cut to its contract. Call histories are covered by the inductive-step argument, not by exploration.',
+  level_text='Bounded symbolic execution of the real tbbmalloc front-end kernels: size-class functions for every request size; one inductive step of the slab (Block) operations from an arbitrary state satisfying the representation invariant, for every size class; allocateAligned strategy selection for symbolic size/alignment with the inner allocator cut to its contract; cross-thread free of slab objects (freePublicObject || owner privatisation / orphan adoption) on one block under all bounded interleavings of 2-3 threads. Sequential call histories are covered by the inductive-step argument, not by exploration.',
   level_note='Cut points and stub contracts listed in evidence; whole-allocator histories through scalable_malloc and the backend/large-object cache are outside; cross-thread frees are covered only within the bounds of pubfree (one block, 2-3 threads, 2 rounds). Trusted: clang-14 IR, tools/ir2c.py (validated per run against the real C++ by the selftest differential), cbmc.',
 )
 OUTSIDE = ['whole-allocator call histories through scalable_malloc (initialisation, backend regions)', 'large-object cache and backend coalescing', 'cross-thread frees beyond the pubfree bounds (one block, <=2 concurrent frees, 2 rounds)', 'thread-exit orphan adoption end to end']
